@@ -5,9 +5,10 @@ from pipeline import *
 
 ALPHA = json.load(open(os.path.join(SPEC, "tok_alphabet.json")))
 # concretisations of the model alphabet used for additional replays
-REPS = {"a": ["a", "Z", "é", "ß", "中", "𝒜"], "1": ["1", "0", "9"], " ": [" ", "\t", "\n", "\r"],
+WS = ["\u00a0", "\u3000", "\u2028", "\u2029", "\x0c", "\x0b", "\u1680", "\u2003", "\u0085"]   # whitespace the tokenizer does not class as space
+REPS = {"a": ["a", "Z", "é", "ß", "中", "𝒜"], "1": ["1", "0", "9"], " ": [" ", "\t", "\n", "\r"] + WS,
         "?": ["?", "(", ",", "%", " ", "٣", "😀", "\u0000"]}
-POOL = list(" \t\n\r") + list("aZ09_$?'\"`[]\\(),.;:%*=<>-+/") + ["é", "ß", "中", " ", "٣", "😀", "𝒜", "\u0000", "\u001a", "''", '""', "``", "\\'", "\\\\", "??", "$1", "$$"]
+POOL = list(" \t\n\r") + WS + list("aZ09_$?'\"`[]\\(),.;:%*=<>-+/") + ["é", "ß", "中", " ", "٣", "😀", "𝒜", "\u0000", "\u001a", "''", '""', "``", "\\'", "\\\\", "??", "$1", "$$"]
 
 def rand_string(rng, maxlen):
     n = rng.randint(0, maxlen)
